@@ -24,7 +24,7 @@ func (c11) ID() string { return "C11" }
 
 func (c11) Budget(tier string) int {
 	if tier == "thorough" {
-		return 120000
+		return 400000
 	}
 	return 23000
 }
